@@ -115,6 +115,10 @@ void describe(A&& a)
     {
         S.ev += "e";
     }
+    else if constexpr (std::is_same_v<T, ctpg::term_value<ctpg::no_type>>)
+    {
+        S.ev += "n"; put(a.get_line()); S.ev += ":"; put(a.get_column());
+    }
     else if constexpr (std::is_integral_v<T>)
     {
         S.ev += "i"; put(long(a));
